@@ -282,7 +282,7 @@ def glpk_solve(cols, rows, c, sense):
 
 def cross_check(count, seed):
     rng = random.Random(seed)
-    tally, unknown, disagree, t_ref, t_glpk, iters = {}, 0, 0, 0.0, 0.0, 0
+    tally, gtally, unknown, disagree, t_ref, t_glpk, iters = {}, {}, 0, 0, 0.0, 0.0, 0
     for k in range(count):
         cols, rows, c, sense = rand_lp(rng)
         lp = mk(cols, rows)
@@ -294,6 +294,7 @@ def cross_check(count, seed):
         t_ref += t1 - t0
         iters += r.iterations
         tally[r.status] = tally.get(r.status, 0) + 1
+        gtally[gs] = gtally.get(gs, 0) + 1
         if not r.certified or r.status == 'unknown':
             unknown += 1
             check(False, "random #%d: uncertified (claimed %s)" % (k, r.claimed))
@@ -307,8 +308,34 @@ def cross_check(count, seed):
             disagree += 1
         check(ok, "random #%d: reflp %r vs GLPK %s %s  (lp=%r)" % (k, r, gs, gv, (cols, rows, c, sense)))
     print("random cross-check: %d LPs, verdicts %s, unknown=%d, disagreements=%d" % (count, tally, unknown, disagree))
+    print("  GLPK statuses: %s" % gtally)
     print("  mean reflp %.3f ms/LP (%.1f iterations), GLPK via optlang %.3f ms/LP"
           % (1e3 * t_ref / count, iters / count, 1e3 * t_glpk / count))
+
+
+def stress(count, seed):
+    """No GLPK: larger shapes (up to 25x20), awkward float data; everything must come back certified, and
+    optimal values must survive two metamorphic checks (cut off the optimum / pin the objective to it)."""
+    rng = random.Random(seed)
+    tally, maxit = {}, 0
+    for k in range(count):
+        cols, rows, c, sense = rand_lp(rng, rng.randint(1, 25), rng.randint(0, 20))
+        if rng.random() < 0.3:
+            rows = [({j: a * rng.choice([1, 0.1, 1e-3, 7.3]) for j, a in co.items()}, lo, hi) for co, lo, hi in rows]
+            cols = [(None if lo is None else lo * rng.choice([1, 0.1, 1.7]), hi) for lo, hi in cols]
+            cols = [(lo, hi) if lo is None or hi is None or lo <= hi else (hi, lo) for lo, hi in cols]
+        lp = mk(cols, rows)
+        r = solve(lp, c, sense)
+        tally[r.status] = tally.get(r.status, 0) + 1
+        maxit = max(maxit, r.iterations)
+        check(r.certified, "stress #%d: uncertified (claimed %s)" % (k, r.claimed))
+        if r.status == 'optimal' and k % 4 == 0:
+            beyond = (r.value + 1, None) if sense == 'max' else (None, r.value - 1)
+            r2 = solve(lp.with_row(c, *beyond), c, sense)
+            check(r2.status == 'infeasible' and r2.certified, "stress #%d: cut-off optimum not infeasible: %r" % (k, r2))
+            r3 = solve(lp.with_row(c, r.value, r.value), c, 'min' if sense == 'max' else 'max')
+            check(r3.status == 'optimal' and r3.value == r.value, "stress #%d: pinned optimum: %r" % (k, r3))
+    print("stress (no GLPK, up to 25x20, float data): %d LPs, verdicts %s, max iterations %d" % (count, tally, maxit))
 
 
 def timing(n, m, reps, seed, density, style, p_eq0):
@@ -334,6 +361,7 @@ if __name__ == '__main__':
     negative_verify()
     print("hand-made + negative tests: %d checks, %d failures" % (CHECKS[0], len(FAILS)))
     cross_check(count, seed)
+    stress(max(200, count // 3), seed + 1)
     for n, m in ((12, 8), (25, 20)):
         for density, style, p_eq0 in ((0.15, 'flux0', 1.0), (0.15, 'flux', 1.0), (0.15, 'planted', 0.8),
                                       (0.35, 'flux0', 1.0), (0.35, 'planted', 0.8)):
